@@ -30,8 +30,9 @@ ASSUMPTIONS = [
     'the theorems cover every schedule (execution order x job-to-worker assignment) of the model',
     'successive draws of one generator are distinct arrays (hypothesis `Function.Injective (nthDraw draw g)`): validated on every traced run',
     'Pool.starmap returns results in argument order (validated by C07 stream pool_order)',
-    'members with different column counts are averaged with absent columns counting as zero (behaviour of the DESIGN 9-D3 repair owned by C03); '
-    'on a tree without that repair such cases raise IndexError / are truncated and are counted under the tag d3-ragged-pinned, not compared',
+    'members with different column counts are averaged with absent columns counting as zero and the result has as many columns as the widest '
+    'member (behaviour of the DESIGN 9-D3 repair owned by C03); on a tree without that repair such cases raise IndexError and are counted '
+    'under the tag d3-ragged-pinned, not compared',
     'complete_ensemble_sift stop logic (number of stages) is taken from the output; C03 owns it',
 ]
 RULE = ('grid: nensembles 1..8 x nprocesses 1..8 x noise_mode {single, flip} x ensemble_noise {0, 0.05, 2.0} x cap {None, 2, 3, 4}; quick samples '
@@ -189,6 +190,13 @@ class Ensemble(_Base):
             dict(base, level=0.0, cap=None, N=3, nproc=2),           # zero noise = classic sift
             dict(base, level=0.0, cap=2, N=5, nproc=5, mode='flip'),
             dict(base, N=1, nproc=1), dict(base, N=1, nproc=8), dict(base, N=8, nproc=1, mode='flip'),
+            # zero noise, classic sift stops before the cap (witness of trailing all-zero columns with K = cap)
+            {'sig': {'fam': 'tones', 'n': 48, 'seed': 698097774, 'scale': 250.0}, 'N': 1, 'nproc': 1, 'mode': 'flip',
+             'level': 0.0, 'cap': 3, 'seed': 482678724, 'opts': 0, 'delay': False},
+            {'sig': {'fam': 'walk', 'n': 48, 'seed': 5, 'scale': 1.0}, 'N': 3, 'nproc': 2, 'mode': 'single',
+             'level': 0.0, 'cap': 6, 'seed': 4, 'opts': 0, 'delay': False},
+            {'sig': {'fam': 'walk', 'n': 48, 'seed': 5, 'scale': 1.0}, 'N': 4, 'nproc': 3, 'mode': 'flip',
+             'level': 0.05, 'cap': 6, 'seed': 4, 'opts': 0, 'delay': False},
         ]
 
     def generate(self, rng, tier):
@@ -275,17 +283,21 @@ class Ensemble(_Base):
         return self._memo(case, run)
 
     def _ragged(self, case, an):
-        K = case['cap'] if case['cap'] is not None else (max(an['widths']) if an['widths'] else 0)
+        K = max(an['widths']) if an['widths'] else 0
         return any(w != K for w in an['widths']), K
 
     def _pinned_d3(self, case, out, an):
-        """members of different widths and the tree still has the un-repaired averaging (C03 / D3)"""
+        """members of different widths (or narrower than the cap) on a tree that still has the un-repaired
+        averaging loop of DESIGN 9-D3 (owned by C03): IndexError, or columns cut to the width of member 0"""
         ragged, K = self._ragged(case, an)
-        if not ragged or len(an['members']) != case['N']:
+        if len(an['members']) != case['N']:
+            return False
+        narrow = case['cap'] is not None and K < case['cap']
+        if not (ragged or narrow):
             return False
         if out.get('error') == 'IndexError':
             return True
-        if out.get('cols') is not None and case['cap'] is None and len(out['cols']) != K:
+        if out.get('cols') is not None and case['cap'] is None and len(out['cols']) < K:
             return True
         return False
 
@@ -309,8 +321,7 @@ class Ensemble(_Base):
                 tbl.append(_msk.vlist(arg))
                 tbl += [_msk.vlist(c) for c in cols]
         vecs += [widths] + tbl
-        ops.append(proto.op('ENS', {'n': len(ms), 'flip': 1 if case['mode'] == 'flip' else 0,
-                                    'cap': 'none' if case['cap'] is None else case['cap'], 'scale': scale,
+        ops.append(proto.op('ENS', {'n': len(ms), 'flip': 1 if case['mode'] == 'flip' else 0, 'scale': scale,
                                     'tol': _msk.TOL * max(1.0, _msk.max_abs(x) + 6 * scale), 'p': max(case['nproc'], 1)}, vecs))
         return ops
 
@@ -388,7 +399,7 @@ class Ensemble(_Base):
         if self._pinned_d3(case, out, an) or len(ms) != case['N']:
             return fs
         cols = [np.array(c) for c in out['cols']]
-        K = case['cap'] if case['cap'] is not None else max(an['widths'])
+        K = max(an['widths'])
         want = _zero_padded_mean(n, [m['dec'] for m in ms], K)
         tol = _msk.TOL * max(1.0, _msk.max_abs(x) + 6 * an['scale'])
         if len(cols) != len(want):
@@ -405,7 +416,13 @@ class Ensemble(_Base):
                     break
         if case['level'] == 0:
             ref = _classic(x, case['cap'], _opts(case))
-            if len(ref) != len(cols) or any(np.max(np.abs(a - b)) > 1e-12 * max(1.0, _msk.max_abs(x)) for a, b in zip(ref, cols)):
+            ztol = 1e-12 * max(1.0, _msk.max_abs(x))
+            same_prefix = all(np.max(np.abs(a - b)) <= ztol for a, b in zip(ref, cols))
+            if len(cols) > len(ref) and same_prefix and all(np.max(np.abs(c)) == 0 for c in cols[len(ref):]):
+                fs.append(Failure('zero-noise-trailing-zero-columns',
+                                  'ensemble_sift(ensemble_noise=0, max_imfs=%s) returns %d columns: the %d columns of sift(x, max_imfs=%s) '
+                                  'followed by %d all-zero columns' % (case['cap'], len(cols), len(ref), case['cap'], len(cols) - len(ref))))
+            elif len(ref) != len(cols) or not same_prefix:
                 fs.append(Failure('zero-noise-differs-from-classic-sift', '%d vs %d columns' % (len(cols), len(ref))))
         return fs
 
